@@ -159,7 +159,7 @@ def hpv_checks(ctx: Ctx, n: int):
     """HPVUnilateral: split by HPV status; likelihood vs the Coq model (Hpv.hpv_cohort_factors) and vs the sum of the parts."""
     from lymph import models
     from ..coqterms import coq_patient, coq_uni
-    from ..core import run_coq_cases, lst as _lst
+    from ..core import run_coq_cases, lst as _lst, s as _s
     rng = ctx.rng
     pending = []
     for _ in range(n):
@@ -181,7 +181,7 @@ def hpv_checks(ctx: Ctx, n: int):
             pats = [gen.gen_patient(rng, [x[0] for x in mods], ["II", "III"]) for _ in range(rng.randint(0, 5))]
             status = [rng.choice([True, False, None]) for _ in pats]
             df = impl.table_from_patients(pats, [x[0] for x in mods], ["II", "III"])
-            df[("patient", "#", "hpv_status")] = pd.Series(status, dtype=object)
+            df[("patient", "#", "hpv_status")] = pd.Series(status, dtype=object, index=df.index)
             df[("patient", "#", "id")] = list(range(len(pats)))
             m.load_patient_data(df)
             last = (pats, status)
@@ -203,12 +203,36 @@ def hpv_checks(ctx: Ctx, n: int):
                           {"case": case, "mismatch": {"observable": "HPVUnilateral.likelihood()", "actual": tot, "expected": parts}},
                           {"class": "HPVUnilateral", "call": "likelihood"})
             return
+        # every mode x T-stage restriction x log: the composite forwards both to BOTH sub-models
+        stages = sorted({str(t) for t in dists})
+        for mode in ("HMM", "BN") if g["base"] == 2 else ("HMM",):      # the Bayesian network is binary-only
+            for ts in [None] + stages:
+                for lg in (True, False):
+                    try:
+                        tot2 = float(m.likelihood(t_stage=ts, mode=mode, log=lg))
+                        a, b = float(m.hpv.likelihood(t_stage=ts, mode=mode, log=lg)), float(m.nohpv.likelihood(t_stage=ts, mode=mode, log=lg))
+                    except Exception as e:  # noqa: BLE001
+                        ctx.violation("HPV likelihood raised", {"case": case, "mismatch": {"observable": f"likelihood(t_stage={ts!r}, mode={mode!r}, log={lg})",
+                                      "actual": f"raised {impl.err_enum(e)}", "expected": "a value"}}, {"class": "HPVUnilateral", "call": "likelihood"})
+                        return
+                    parts2 = a + b if lg else a * b
+                    if not (tot2 == parts2 or abs(tot2 - parts2) <= 1e-9 * max(1.0 if lg else 0.0, abs(parts2)) + 1e-300):
+                        ctx.violation("HPV likelihood is not the sum of the parts",
+                                      {"case": case, "mismatch": {"observable": f"HPVUnilateral.likelihood(t_stage={ts!r}, mode={mode!r}, log={lg})",
+                                                                  "actual": tot2, "expected": parts2}},
+                                      {"class": "HPVUnilateral", "call": "likelihood"})
+                        return
         base = {"graph": g, "mods": mods, "dists": dists, "max_time": mt}
         rows = _lst("{| hp_pat := " + coq_patient(p, "ipsi", tmap) + "; hp_status := "
                     + ("None" if sv is None else f"(Some {'true' if sv else 'false'})") + " |}" for p, sv in zip(pats, status))
         expr = (f"match hpv_cohort_factors {{| h_hpv := {coq_uni({**base, 'params': pp})}; h_nohpv := {coq_uni({**base, 'params': pn})} |}} "
                 f"{rows} None with inr v => inr (qouts v) | inl e => inl e end")
         pending.append((case, tot, expr))
+        if stages:
+            ts = rng.choice(stages)
+            expr_t = expr.replace(f"{rows} None with", f'{rows} (Some {_s(ts)}) with')
+            assert expr_t != expr
+            pending.append(({**case, "t_stage": ts}, float(m.likelihood(t_stage=ts)), expr_t))
     if pending:
         vals = run_coq_cases(ctx.work / "hpv", [e for _, _, e in pending], IMPORTS + " LikelihoodProofs Hpv", shard=10)
         for (case, tot, _), v in zip(pending, vals):
